@@ -1,6 +1,6 @@
 (** Correspondence evaluator for C12 (internal/stats numerics). *)
 From Coq Require Import ZArith QArith Qround Qminmax List Bool.
-From Perf Require Import Base.Bytes Base.Sx Base.B64 Base.SxF Model.StatsF Model.Beta Model.TDist Model.Bisect Model.TTest Model.NormalDist Base.B64Q Model.StatsQ Model.TRefTable Proofs.TTest Model.TTestQ.
+From Perf Require Import Base.Bytes Base.Sx Base.B64 Base.SxF Model.StatsF Model.Beta Model.TDist Model.Bisect Model.TTest Model.NormalDist Base.B64Q Model.StatsQ Model.TRefTable Proofs.TTest Model.TTestQ Model.TTestSpec Model.Quadrature Model.DistRefTable.
 Import ListNotations.
 Local Open Scope Z_scope.
 
@@ -83,6 +83,10 @@ Definition corr_desc (c : desc_case) : bool :=
       geomean     |got/gm - 1|       <= (4 + n/8)(2 + max|log2 x_i|) 2^-52   (n <= 32, 2^-1022 <= x_i < 2^1022)
     exact clauses: bounds are the extreme sample values; min <= mean <= max;
     percentiles are monotone in p and within [min, max].
+      IQR         |got - (R8(3/4) - R8(1/4))| <= 2 tol_percentile + 2 u, got >= 0
+    Not demanded (the property is about samples of >= 1 values and definitions that exist):
+    the NaN results of the empty sample, the documented variance 0 of a single value
+    (both compared with the model in [corr_desc]).
     Skipped when intermediate overflow is possible: max|x| >= 2^1022 (mean,
     percentile), >= 2^500 (variance, stddev). *)
 Local Open Scope Q_scope.
@@ -133,8 +137,8 @@ Definition prop_desc (c : desc_case) : bool :=
   let xs := d_xs c in
   let n := length xs in
   match xs with
-  | [] => b64_is_nan (d_mean c) && b64_is_nan (d_var c) && b64_is_nan (d_sd c) && b64_is_nan (d_gm c)
-          && b64_is_nan (d_min c) && b64_is_nan (d_max c) && forallb b64_is_nan (d_percs c)
+  | [] => true   (* the property quantifies over samples of >= 1 values; the NaN convention of the
+                    empty sample is compared in [corr_desc] only *)
   | _ =>
     if negb (all_finite xs) then true else
     let E := min_exp xs in
@@ -164,7 +168,8 @@ Definition prop_desc (c : desc_case) : bool :=
     let var_ok :=
       if small500 then
         match xs with
-        | [_] => b64_same (d_var c) f_zero && b64_same (d_sd c) f_zero
+        | [_] => true   (* the unbiased variance of one value is 0/0: the property states nothing; the
+                           documented 0 is compared in [corr_desc] *)
         | _ =>
             let vq := variance_ps_q zq in
             oQ (sv2 (d_var c)) (fun v => Qclose v vq tol_var && Qle_bool 0 v)
@@ -197,6 +202,11 @@ Definition prop_desc (c : desc_case) : bool :=
                 | None => false
                 end) (d_ps c) (d_percs c)
         && nondecreasing_f (d_percs c)   (* the generator emits p in ascending order *)
+        (* Sample.IQR = R8(3/4) - R8(1/4): two percentile tolerances and one rounded subtraction; >= 0 *)
+        && (let sq := sort_q zq in
+            oQ (sv (d_iqr c)) (fun g => Qclose g (percentile_q sq (3 # 4) - percentile_q sq (1 # 4))
+                                               (2 * ((2 + 2 * nq) * u + tiny) + 2 * u)
+                                        && Qle_bool 0 g))
       else true in
     bounds_ok && mean_ok && var_ok && gm_ok && perc_ok
   end.
@@ -330,6 +340,22 @@ Definition corr_tpdf (l : list sx) : option bool :=
   | _ => None
   end.
 
+(** "never fails to converge for degrees of freedom that real samples produce": in the replay of
+    TDist.CDF a panic (betacf's iteration cap) for 1 <= nu <= 1e5 and a numeric x is a violation of the
+    property even when the model predicts it; a value there must lie in [0,1] *)
+Definition prop_tcdf (l : list sx) : option bool :=
+  match l with
+  | [v; x; lg; lo; ex; out] =>
+      do v <- as_f64 v; do x <- as_f64 x; do out <- as_fout out;
+      if b64_le b64_one v && b64_le v (b64_of_Z 100000) && negb (b64_is_nan x) then
+        Some (match out with
+              | FVal f => b64_le b64_zero f && b64_le f b64_one
+              | FPanic => false
+              end)
+      else Some true
+  | _ => None
+  end.
+
 (** * kinds 7-8: InvCDF / bisectBool replay *)
 Definition ires_matches (r : ires) (o : fout) : bool :=
   match r, o with
@@ -384,6 +410,7 @@ Definition decision_tt (c : tt_case) : option terr :=
   else if t =? 2 then paired_decision (raw_of (tt_s1 c)) (raw_of (tt_s2 c))
   else one_sample_decision (ts_of (tt_s1 c)).
 
+Definition qf' (x : b64) : option Q := b64_to_Q x.
 Definition in_unit (p : b64) : bool := b64_le b64_zero p && b64_le p b64_one.
 
 (** ** textbook statistic and degrees of freedom in exact rationals (Model/TTestQ.v)
@@ -489,23 +516,127 @@ Definition tt_textbook_ok (c : tt_case) (t dof : b64) : bool :=
   end.
 Local Close Scope Q_scope.
 
-Definition prop_tt (c : tt_case) : bool :=
+(** ** which inputs are errors: the declarative preconditions of Model/TTestSpec.v
+    (undersized = an empty group or no positive degrees of freedom; zero variance =
+    the variance estimate of the statistic is 0), evaluated in exact rationals:
+    from raw samples n = length and the exact sample variance; from summaries the
+    given Weight / Variance. Judged on REGULAR inputs: finite raw samples below 2^500;
+    summaries with a non-negative integer Weight <= 2^52, a finite Mean below 2^500 and
+    a Variance that is 0 or in [2^-500, 2^500) - what the property quantifies over
+    ("samples of 1 to several hundred finite values"; a Weight of 0.5 or a negative
+    or NaN variance is no sample's). Irregular summaries are only held to the code's
+    documented decisions (Proofs/TTest.v), as before.
+
+    Paired test: lengths and the binary64 standard deviation of the rounded
+    differences, as documented (Proofs/TTest.paired_decision).
+
+    The error KIND is demanded only as far as the property goes: an undersized input
+    must give ErrSampleSize, a zero-variance input ErrZeroVariance, an input that is
+    both may give either ([corr_tt] stays exact about the order of the checks). *)
+Local Open Scope Q_scope.
+Definition q_is_int (q : Q) : bool := Qeq_bool q (inject_Z (Qfloor q)).
+Definition mag_ok (q : Q) : bool := Qle_bool (Qabs' q) (pow2Q 500).
+Definition regular_sd (d : sdesc) : bool :=
+  match d with
+  | SRaw xs => all_finite xs && forallb (fun x => b64_lt_pow2 x 500) xs
+  | SSum n m v =>
+      match b64_to_Q n, b64_to_Q m, b64_to_Q v with
+      | Some nq, Some mq, Some vq =>
+          q_is_int nq && Qle_bool 0 nq && Qle_bool nq (pow2Q 52) && mag_ok mq
+          && Qle_bool 0 vq && mag_ok vq && (Qeq_bool vq 0 || Qle_bool (pow2Q (-500)) vq)
+      | _, _, _ => false
+      end
+  end.
+Local Close Scope Q_scope.
+
+Definition tt_E (c : tt_case) : Z :=
+  match tt_s1 c, tt_s2 c with
+  | SRaw a, SRaw b => min_exp (a ++ b)
+  | SRaw a, _ => min_exp a
+  | _, SRaw b => min_exp b
+  | _, _ => 0%Z
+  end.
+
+Definition expect_tt (c : tt_case) : option expect :=
+  let test := tt_test c in
+  if test =? 2 then
+    Some (match paired_decision (raw_of (tt_s1 c)) (raw_of (tt_s2 c)) with
+          | Some e => ExpErrIn [err_code e] | None => ExpOk end)
+  else if regular_sd (tt_s1 c) && ((test =? 3) || regular_sd (tt_s2 c)) then
+    match qstat_of (tt_E c) (tt_s1 c), qstat_of (tt_E c) (tt_s2 c) with
+    | Some s1, o2 =>
+        if test =? 3 then Some (expect_of (undersized_one (qs_n s1)) (zero_var_one (qs_v s1)))
+        else match o2 with
+             | Some s2 =>
+                 if test =? 1 then Some (expect_of (undersized_welch (qs_n s1) (qs_n s2))
+                                                   (zero_var_welch (qs_v s1) (qs_v s2)))
+                 else Some (expect_of (undersized_pooled (qs_n s1) (qs_n s2))
+                                      (zero_var_pooled (qs_v s1) (qs_n s1) (qs_v s2) (qs_n s2)))
+             | None => None
+             end
+    | None, _ => None
+    end
+  else None.
+
+(** the tail rule relative to the recorded value c of the implementation's own CDF at the
+    observed (dof, t): two-sided 2 (1 - c(|t|)), less c(t), greater 1 - c(t), an unknown
+    hypothesis 0; within 2^-50 (the rule, not one particular way of rounding it), and p in [0,1] *)
+Local Open Scope Q_scope.
+Definition p_rule_ok (cdf : otab2) (t dof : b64) (alt : Z) (p : b64) : bool :=
+  match qf' p with
+  | Some pq =>
+      Qle_bool 0 pq && Qle_bool pq 1 &&
+      (if (alt =? 0)%Z || (alt =? -1)%Z || (alt =? 1)%Z then
+         match oracle2 cdf dof (if (alt =? 0)%Z then b64_abs t else t) with
+         | Val cv =>
+             match qf' cv with
+             | Some cq =>
+                 Qclose pq (if (alt =? 0)%Z then 2 * (1 - cq) else if (alt =? -1)%Z then cq else 1 - cq)
+                        (pow2Q (-50))
+             | None => false
+             end
+         | _ => false
+         end
+       else Qeq_bool pq 0)
+  | None => false
+  end.
+Local Close Scope Q_scope.
+
+Definition sizes_ok (c : tt_case) (n1 n2 alt : Z) : bool :=
+  let s1 := ts_of (tt_s1 c) in let s2 := ts_of (tt_s2 c) in
+  optZ_is (b64_to_int (ts_n s1)) n1
+  && (if tt_test c =? 3 then n2 =? 0
+      else if tt_test c =? 2 then n2 =? Z.of_nat (length (raw_of (tt_s2 c)))
+      else optZ_is (b64_to_int (ts_n s2)) n2)
+  && (alt =? tt_alt c).
+
+(** irregular summaries (outside the property's quantifier): the code's documented decisions,
+    sizes, the tail rule where the statistic is a number *)
+Definition prop_tt_irregular (c : tt_case) : bool :=
   match tt_out c, decision_tt c with
   | OErr code, Some e => err_code e =? code
   | OOk n1 n2 t dof alt p, None =>
-      let s1 := ts_of (tt_s1 c) in let s2 := ts_of (tt_s2 c) in
-      optZ_is (b64_to_int (ts_n s1)) n1
-      && (if tt_test c =? 3 then n2 =? 0
-          else if tt_test c =? 2 then n2 =? Z.of_nat (length (raw_of (tt_s2 c)))
-          else optZ_is (b64_to_int (ts_n s2)) n2)
-      && (alt =? tt_alt c)
+      sizes_ok c n1 n2 alt
       && tt_textbook_ok c t dof
       && (if b64_is_nan t || b64_is_nan dof then true else
           match p_value (oracle2 (tt_cdf c)) t dof alt with
           | Val p' => b64_same p p' && (if b64_is_nan p then true else in_unit p)
           | _ => false
           end)
+  | _, _ => false
+  end.
+
+Definition prop_tt (c : tt_case) : bool :=
+  match tt_out c, expect_tt c with
   | OPanic, _ => false
+  | _, None => prop_tt_irregular c
+  | OErr code, Some (ExpErrIn l) => existsb (Z.eqb code) l
+  | OOk n1 n2 t dof alt p, Some ExpOk =>
+      (* a result: finite statistic, positive finite degrees of freedom, textbook values, a probability *)
+      sizes_ok c n1 n2 alt
+      && b64_is_finite t && b64_is_finite dof && b64_lt b64_zero dof
+      && tt_textbook_ok c t dof
+      && p_rule_ok (tt_cdf c) t dof alt p
   | _, _ => false
   end.
 
@@ -598,6 +729,49 @@ Definition prop_slope (l : list sx) : option bool :=
   end.
 Local Close Scope Q_scope.
 
+(** * kind 13: the distribution functions agree with numerical integration of their densities,
+    judged on the implementation's own PDF and CDF values: for 4k+1 equidistant points a + i h
+    (a, h dyadic, the points exact) the composite Boole sum (Model/Quadrature.v, exact rationals)
+    of the observed PDF values is within 5e-10 of CDF(a + 4k h) - CDF(a); the PDF is >= 0.
+    Steps: h <= sigma/64 over at most one sigma (t: sigma = 1), for which the truncation error
+    (b-a)(2/945) h^6 max|f^(6)| is below 7e-12 (max|f^(6)| <= 720/pi for Student t with nu >= 1,
+    attained by the Cauchy density at 0; 15/sqrt(2 pi) for the standard normal) *)
+Local Open Scope Q_scope.
+Definition tol_quad : Q := 5 # 10000000000.         (* 5e-10; observed <= 2e-11 (t), 1e-13 (normal) *)
+Definition prop_quad (l : list sx) : option bool :=
+  match l with
+  | [SZ which; p1; p2; a; h; fs; fa; fb; pan] =>
+      do h <- as_f64 h; do fs <- as_list as_f64 fs; do fa <- as_f64 fa; do fb <- as_f64 fb; do pan <- as_bool pan;
+      Some (negb pan &&
+            match qf' h, omap qf' fs, qf' fa, qf' fb with
+            | Some hq, Some fq, Some faq, Some fbq =>
+                Qle_bool 0 hq && negb (Qeq_bool hq 0)
+                && forallb (fun v => Qle_bool 0 v) fq
+                && match boole_integral hq fq with
+                   | Some bi => Qclose (fbq - faq) bi tol_quad
+                   | None => false
+                   end
+            | _, _, _, _ => false
+            end)
+  | _ => None
+  end.
+
+(** * kind 14: second table of certified reference points (Proofs/DistRef.v): Student-t and normal
+    PDF and CDF values of the implementation within 1e-10 of the certified constants *)
+Definition prop_dref (l : list sx) : option bool :=
+  match l with
+  | [SZ k; SZ dist; p1; p2; SZ fn; x; f] =>
+      do p1 <- as_f64 p1; do p2 <- as_f64 p2; do x <- as_f64 x; do f <- as_f64 f;
+      match nth_error dref_table (Z.to_nat k), qf' p1, qf' p2, qf' x, qf' f with
+      | Some (d, q1, q2, fn', xq, c), Some p1q, Some p2q, Some xq', Some fq =>
+          Some ((d =? dist)%Z && (fn' =? fn)%Z && Qeq_bool q1 p1q && Qeq_bool q2 p2q && Qeq_bool xq xq'
+                && Qclose fq c tol_ref)
+      | _, _, _, _, _ => Some false
+      end
+  | _ => None
+  end.
+Local Close Scope Q_scope.
+
 Definition code_prop (o : option bool) : N :=
   match o with Some b => code_of true b | None => code_undecodable end.
 
@@ -618,7 +792,10 @@ Definition run_case (s : sx) : N :=
       end
   | SL (SZ 3 :: l) => code_corr (corr_betainc l)
   | SL (SZ 4 :: l) => code_corr (corr_betacf l)
-  | SL (SZ 5 :: l) => code_corr (corr_tcdf l)
+  | SL (SZ 5 :: l) => match corr_tcdf l, prop_tcdf l with
+                      | Some a, Some b => code_of a b
+                      | _, _ => code_undecodable
+                      end
   | SL (SZ 6 :: l) => code_corr (corr_tpdf l)
   | SL (SZ 7 :: l) => code_corr (corr_invcdf l)
   | SL (SZ 8 :: l) => code_corr (corr_bisect l)
@@ -626,5 +803,7 @@ Definition run_case (s : sx) : N :=
   | SL (SZ 10 :: l) => code_prop (prop_sweep l)
   | SL (SZ 11 :: l) => code_prop (prop_ref l)
   | SL (SZ 12 :: l) => code_prop (prop_slope l)
+  | SL (SZ 13 :: l) => code_prop (prop_quad l)
+  | SL (SZ 14 :: l) => code_prop (prop_dref l)
   | _ => code_undecodable
   end.
